@@ -4,6 +4,7 @@ package smt
 
 import (
 	"fmt"
+	"sync/atomic"
 	"math/bits"
 	"strconv"
 	"strings"
@@ -64,6 +65,7 @@ type Term struct {
 	Name string // var / UF name
 	P1   int    // extract hi / ext amount
 	P2   int    // extract lo
+	ep   uint32 // context epoch the term belongs to
 }
 
 func (t *Term) IsConst() bool { return t.Op == OpBoolConst || t.Op == OpBVConst }
@@ -95,10 +97,15 @@ type Ctx struct {
 	True  *Term
 	False *Term
 	fresh int
+	epoch uint32
+	small [65][]*Term // cache of small constants per width
 }
+
+var epochCounter uint32
 
 func NewCtx() *Ctx {
 	c := &Ctx{tab: map[string]*Term{}, UFs: map[string]*UFDecl{}}
+	c.epoch = atomic.AddUint32(&epochCounter, 1)
 	c.False = c.mk(&Term{Op: OpBoolConst, Val: 0})
 	c.True = c.mk(&Term{Op: OpBoolConst, Val: 1})
 	return c
@@ -131,6 +138,31 @@ func (c *Ctx) key(t *Term) string {
 }
 
 func (c *Ctx) mk(t *Term) *Term {
+	for i, a := range t.Args {
+		if a.ep != c.epoch {
+			// a constant that outlived a context reset (package-level state): re-intern it
+			if !a.IsConst() {
+				panic("smt: non-constant term from another context")
+			}
+			na := make([]*Term, len(t.Args))
+			copy(na, t.Args)
+			for j := i; j < len(na); j++ {
+				if na[j].ep != c.epoch {
+					if !na[j].IsConst() {
+						panic("smt: non-constant term from another context")
+					}
+					if na[j].W == 0 {
+						na[j] = c.Bool(na[j].Val == 1)
+					} else {
+						na[j] = c.BV(na[j].W, na[j].Val)
+					}
+				}
+			}
+			t.Args = na
+			break
+		}
+	}
+	t.ep = c.epoch
 	k := c.key(t)
 	if e, ok := c.tab[k]; ok {
 		return e
@@ -162,7 +194,19 @@ func (c *Ctx) BV(w int, v uint64) *Term {
 	if w <= 0 || w > 64 {
 		panic(fmt.Sprintf("smt: BV const width %d", w))
 	}
-	return c.mk(&Term{Op: OpBVConst, W: w, Val: v & mask(w)})
+	v &= mask(w)
+	if v < 512 {
+		if c.small[w] == nil {
+			c.small[w] = make([]*Term, 512)
+		}
+		if t := c.small[w][v]; t != nil {
+			return t
+		}
+		t := c.mk(&Term{Op: OpBVConst, W: w, Val: v})
+		c.small[w][v] = t
+		return t
+	}
+	return c.mk(&Term{Op: OpBVConst, W: w, Val: v})
 }
 
 func (c *Ctx) Var(name string, w int) *Term {
@@ -476,6 +520,12 @@ func (c *Ctx) bin(op Op, a, b *Term) *Term {
 		return c.BV(w, r)
 	}
 	if w <= 64 {
+		// two small enumerated values (e.g. two '0'/'1' characters): distribute over both
+		if isIteConst(a, 1) && isIteConst(b, 1) && (op == OpBVXor || op == OpBVAnd || op == OpBVOr || op == OpBVAdd || op == OpBVSub) {
+			return c.MapIte(a, func(x *Term) *Term {
+				return c.MapIte(b, func(y *Term) *Term { return c.bin(op, x, y) })
+			})
+		}
 		if b.IsConst() && isIteConst(a, 4) {
 			return c.MapIte(a, func(x *Term) *Term { return c.bin(op, x, b) })
 		}
